@@ -146,12 +146,42 @@ End Wf.
 
 End Validators.
 
+(* ---------- the mapping as writer rules, combined with the reader rules under test ---------- *)
+(* SW: class -> (constants, writer rules) derived from the specification side; the reader rules stay those of T *)
+Definition mix (SW : list (string * (list (string * string) * list wrule))) (T : tables) : tables :=
+  map (fun p => match sfind (fst p) SW with
+                | Some cw => (fst p, mkC (fst cw) (snd cw) (c_r (snd p)))
+                | None => p end) T.
+(* the constants the reader dispatches on are the specification's *)
+Definition same_consts (SW : list (string * (list (string * string) * list wrule))) (T : tables) : bool :=
+  forallb (fun p => match sfind (fst p) SW with
+                    | Some cw => table_eqb (fst cw) (c_consts (snd p))
+                    | None => false end) T.
+
+(* ---------- the mapping's spelling of enumeration literals ---------- *)
+(* an enum member named MODEL_REFERENCE / Input is written ModelReference / input: equal after dropping '_' and case;
+   the XSD value types (named by Python classes in the value universe) are written as listed in [XN] *)
+Definition lower (c : ascii) : ascii :=
+  let n := nat_of_ascii c in
+  if (Nat.leb 65 n && Nat.leb n 90)%bool then ascii_of_nat (n + 32) else c.
+Fixpoint norm (s : string) : string :=
+  match s with
+  | EmptyString => EmptyString
+  | String c r => if Ascii.eqb c "_"%char then norm r else String (lower c) (norm r)
+  end.
+Definition literal_ok (XN : table) (m lit : string) : bool :=
+  match sfind m XN with
+  | Some l => String.eqb l lit
+  | None => String.eqb (norm m) (norm lit)
+  end.
+
 (* ---------- conformance of the writer rule tables to the JSON schema tables ---------- *)
 Section Conforms.
 Variable T : tables.          (* generated from the JSON adapter (gen/Gen_JsonRules.v) *)
 Variable S : jschema.         (* generated from aasJSONSchema.json *)
 Variable SM : smeta.          (* specification side *)
 Variable TR : list triple.    (* (SDK class, context, schema class) reachable from the environment's lists *)
+Variable XN : table.          (* specification side: XSD value type (by Python class name) -> literal *)
 
 (* the condition never emits an absent (None) attribute *)
 Definition cond_drops_none (c : wcond) : bool :=
@@ -203,7 +233,7 @@ Fixpoint tyconf (k : skind) (ne0 : bool) (e : venc) (t : sty) {struct k} : bool 
   | KStr f, ELeaf, SStr g => fimpl f g
   | KBool, EAuto, SBool => true
   | KEnum ms, EEnum tb, SEnum lits =>
-    forallb (fun m => match sfind m tb with Some j => smem j lits | None => false end) ms
+    forallb (fun m => match sfind m tb with Some j => smem j lits && literal_ok XN m j | None => false end) ms
   | KLeaf f, ELeaf, SStr g => fimpl f g
   | KObj classes ctx, EAuto, SObj scls => forallb (fun c => tmem3 (c, ctx, scls) TR) classes
   | KObj classes ctx, EAuto, SOne alts =>
@@ -265,6 +295,24 @@ Definition triple_ok (t : triple) : bool :=
   end.
 
 Definition conforms : bool := forallb triple_ok TR.
+
+(* reading: the literals of a schema enumeration that the reader's table does not know (schema class, member, literal) *)
+Definition unread_literals : list (string * string * string) :=
+  flat_map (fun t =>
+    match t with
+    | (cls, ctx, scls) =>
+      match sfind cls T, sfind (cls ++ ctx) SM, sfind scls S with
+      | Some c, Some attrs, Some ps =>
+        flat_map (fun a =>
+          match find_r (a_name a) (c_r c), pfind (a_member a) ps with
+          | Some r, Some p =>
+            match r_dec r, p_ty p with
+            | DcEnum tb, SEnum lits =>
+              flat_map (fun lit => match rfind lit tb with Some _ => [] | None => [(scls, a_member a, lit)] end) lits
+            | _, _ => [] end
+          | _, _ => [] end) attrs
+      | _, _, _ => [] end
+    end) TR.
 
 (* ---------- the environment document of _create_dict ---------- *)
 Definition cls_is (cls : string) (v : value) : bool :=
